@@ -169,14 +169,30 @@ func Run(tier string, sh lib.Shard, rep *lib.Report) {
 		}
 	}
 	// 5. request.header.X
-	for _, name := range []string{"X-Api-Key", "x-api-key", "X-API-KEY", "Authorization", "X"} {
+	names := []string{"X-Api-Key", "x-api-key", "X-API-KEY", "Authorization", "X",
+		"authorization", "user-agent", "source", "tenant", "host", "date", "etag", "request", "header", "request.header.x", "x.dotted", "a", "Te"}
+	// every name of length <= 3 over a small alphabet of header-name characters
+	var short func(cur string)
+	short = func(cur string) {
+		if cur != "" {
+			names = append(names, cur)
+		}
+		if len(cur) == 3 {
+			return
+		}
+		for _, c := range "aerx-.D" {
+			short(cur + string(c))
+		}
+	}
+	short("")
+	for _, name := range names {
 		ex, err := utils.NewExtractor("request.header." + name)
 		if err != nil {
 			rep.Violate("C19:request.header-refused", fmt.Sprintf("request.header.%s refused: %v", name, err), what("variable", name))
 			continue
 		}
 		for _, sent := range []string{name, strings.ToLower(name), strings.ToUpper(name), http.CanonicalHeaderKey(name)} {
-			for _, vals := range [][]string{{"v1"}, {"v1", "v2"}, {""}, {"MiXed Case ü"}, nil} {
+			for _, vals := range [][]string{{"v1"}, {"v1", "v2"}, {""}, {"MiXed Case ü"}, nil, {"value-of-" + name}} {
 				sent, vals := sent, vals
 				tok, amount, err, p := extract(ex, func(r *http.Request) {
 					for _, v := range vals {
